@@ -473,12 +473,74 @@ class Seq:
                 self.mon.v(key, "after head change (%s): pool has %d entries; %d of the %d previous ones are still valid; %d valid "
                            "ones missing, %d unexpected" % (mode, len(got), len(exp), len(pool), len(missing), len(extra)), dict(self.w))
 
+    def fall_back_after_bulk_blocks(self):
+        """a head change BACKWARDS: blocks arrive as bulk-download replies (taken without in-state validation), a transaction
+        spending an output created in them is admitted, then a relayed block breaking a chain rule makes the node fall back to
+        what it had validated -- at that head the transaction's input does not exist, so it must leave the pool"""
+        mon, c, world, rng, sn = self.mon, self.mon.c, self.world, self.rng, self.sn
+        head, pool = self.snapshot()
+        if head not in world.chain.blocks:
+            return
+        tmp = world.fork()
+        cur = head
+        blocks = []
+        try:
+            for _ in range(rng.choice([1, 2, 3])):
+                parent = tmp.chain.blocks[cur]
+                rb, real = tmp.assemble(cur, [], parent.ts + 1, rng.choice(tmp.keys)[1], route="ref")
+                if tmp.accept(rb, real, validate=False) is None:
+                    return
+                blocks.append((rb, real))
+                cur = rb.id()
+            src = blocks[0][0]
+            v, k = src.txs[0].outputs[0]
+            if v < 2 or k not in tmp.sk_by_pk:
+                return
+            t = cstream.sign_each(tmp, cstream.unsigned_tx([(src.txs[0].id(), 0)], [(v - 1, tmp.keys[0][1])]), [k], rng)
+            built = cstream.v_reward_plus_one(tmp, cur, rng)
+        except Exception:
+            return
+        if built is None:
+            return
+        bad = built[0]
+        sn.net.clock.t = world.now = max(world.now, bad.ts + 10)
+        raw = rng.choice(sn.active() or [sn.add_peer()])
+        for j, (rb, real) in enumerate(blocks):
+            raw.push(sn.wire.block(real, in_response_to=5000 + j))
+        sn.settle()
+        if sn.cm.coinstate.current_chain_hash != cur:
+            return          # (the bulk blocks were not taken: nothing to fall back from)
+        c["operations"] += 1
+        self.ops.append(["bulk-blocks", [rb.enc().hex() for rb, _r in blocks]])
+        admitted = False
+        try:
+            admitted = bool(sn.cm.add_transaction_to_pool(bridge.rtx_to_real(t)))
+        except Exception:
+            pass
+        self.ops.append(["submit", "api", "spend-of-bulk-block-output", t.enc().hex()])
+        self.ops.append(["relay-rule-breaking-block", bad.enc().hex()])
+        rng.choice(sn.active() or [sn.add_peer()]).push(sn.wire.block(bridge.rblock_to_real(bad)))
+        sn.settle()
+        while len(sn.active()) < 2:
+            sn.add_peer()
+        c["fall_backs_after_bulk_blocks"] = c.get("fall_backs_after_bulk_blocks", 0) + 1
+        if admitted:
+            c["fall_backs_with_dependent_transaction_pooled"] = c.get("fall_backs_with_dependent_transaction_pooled", 0) + 1
+        if sn.cm.coinstate.current_chain_hash not in world.chain.blocks:
+            # the node kept blocks the harness world does not know (not this property's subject): re-align and go on
+            sn.store.write_buffer.clear()
+            sn.cm.set_coinstate(world.state_at(head))
+        c["head_changes"] += 1
+        self.check_invariant("a fall-back to the last validated state (bulk-download blocks dropped after a rule-breaking relayed block)")
+
     def run(self, nops):
         names = sorted(SUBMISSIONS)
         rng = self.rng
         for k in range(nops):
             r = rng.random()
-            if r < 0.22:
+            if r < 0.03:
+                self.fall_back_after_bulk_blocks()
+            elif r < 0.22:
                 self.head_change()
             else:
                 name = "valid" if r < 0.55 else rng.choice(names + ["resubmit-refused", "resubmit-refused"])
@@ -700,7 +762,20 @@ def replay(mon, w):
                 world.accept(rb, real, cs=world.cs)
         elif o[0] == "set-coinstate":
             seq.sn.cm.set_coinstate(world.state_at(bytes.fromhex(o[1]), cs=seq.sn.cm.coinstate))
-        seq.check_invariant("replayed %s" % o[0])
+        elif o[0] == "bulk-blocks":
+            raw = (seq.sn.active() or [seq.sn.add_peer()])[0]
+            for j, hx in enumerate(o[1]):
+                rb = ref.dec_block(bytes.fromhex(hx), strict=False)[0]
+                seq.sn.net.clock.t = max(seq.sn.net.clock.t, rb.ts + 100)
+                raw.push(seq.sn.wire.block(bridge.rblock_to_real(rb), in_response_to=5000 + j))
+            seq.sn.settle()
+        elif o[0] == "relay-rule-breaking-block":
+            rb = ref.dec_block(bytes.fromhex(o[1]), strict=False)[0]
+            seq.sn.net.clock.t = max(seq.sn.net.clock.t, rb.ts + 100)
+            (seq.sn.active() or [seq.sn.add_peer()])[0].push(seq.sn.wire.block(bridge.rblock_to_real(rb)))
+            seq.sn.settle()
+        if seq.sn.cm.coinstate.current_chain_hash in world.chain.blocks:
+            seq.check_invariant("replayed %s" % o[0])
     seq.sn.close()
 
 
@@ -737,7 +812,8 @@ def finalize(m, tier):
               ("fork_switches", c.get("fork_switches", 0), 100), ("evictions", c.get("evictions", 0), 200),
               ("survivors_after_head_change", c.get("survivors_after_head_change", 0), 200),
               ("submissions_wire", c.get("submissions_wire", 0), 500),
-              ("thread_snapshots", c.get("thread_snapshots", 0), 200)]
+              ("thread_snapshots", c.get("thread_snapshots", 0), 200),
+              ("fall_backs_with_dependent_transaction_pooled", c.get("fall_backs_with_dependent_transaction_pooled", 0), 20)]
     for name in SUBMISSIONS:
         floors.append(("submission " + name, c.get("by_submission", {}).get(name, 0), 10))
     floors.append(("small_scope_sequences", c.get("small_scope_sequences", 0), 9 ** 4))
